@@ -198,6 +198,9 @@ func (op _OpcodeType) decodeI(x uint32) (as abi.As, arg *abi.AsArgument, argRaw 
 		err = fmt.Errorf("decodeI: opcode=%07b, funct3=%03b", op, funct3)
 		return
 	}
+	if as == AECALL && imm == 1 {
+		as = AEBREAK // same opcode and funct3, imm[11:0] = 1
+	}
 
 	// OK
 	return
